@@ -108,6 +108,17 @@ func oracleC08(f *sessionFam, w *World, res *Result) []Violation {
 					l.add("conformant-candidate-completes", sp.Upgrade+"/"+stage, fmt.Sprintf("%s [%s]: conformant %s candidate started at %v on an open session did not complete the switch by %v (%s)", a, ctx, sp.Upgrade, starts[0].T, f.endAt, why))
 				} else {
 					lim := 100*time.Millisecond + 6*time.Duration(sp.LatencyMs)*time.Millisecond + time.Duration(sp.PollGapMs)*time.Millisecond + 5*time.Millisecond
+					lim += time.Duration(w.S.StallMs) * time.Millisecond // (stalled tasks: the time they lost)
+					for _, op := range f.sc.App {
+						if op.SlowMs > 0 && (op.Sess == a || op.Op == "broadcast") {
+							lim += time.Duration(op.SlowMs) * time.Millisecond // (a poll response held up by the application's slow data reader)
+						}
+					}
+					for _, r := range f.sc.Reent {
+						if r.Call == "sleep" && (r.Sess == "" || r.Sess == a) {
+							lim += time.Duration(r.Ms) * time.Millisecond // (a listener that takes its time)
+						}
+					}
 					if d := done[0].T - starts[0].T; d > lim {
 						l.add("switch-in-bounded-time", sp.Upgrade, fmt.Sprintf("%s [%s]: conformant switch took %v (> probe latency + 100 ms check + margin = %v)", a, ctx, d, lim))
 					}
